@@ -314,6 +314,25 @@ theorem emission_postorder (W : Nat) (hW : 2 ≤ W) (raw : Bool) (chunks : List 
     (trickle bytesCodec raw W chunks).emitted = (trickle bytesCodec raw W chunks).node.post :=
   ⟨(balanced_ok bytesCodec rfl raw W hW chunks).1.post, (trickle_ok bytesCodec raw W (by omega) chunks).1.post⟩
 
+/-- The balanced DAG is as shallow as the width allows: for n ≥ 1 chunks its height h is the least with
+    n ≤ W^h (one chunk: the leaf is the root, h = 0; up to W chunks: h = 1; …). -/
+theorem balanced_depth_minimal (W : Nat) (hW : 2 ≤ W) (raw : Bool) (c : List β) (cs : List (List β)) :
+    (c :: cs).length ≤ W ^ (balanced bytesCodec raw W (c :: cs)).node.height ∧
+    (0 < (balanced bytesCodec raw W (c :: cs)).node.height →
+      W ^ ((balanced bytesCodec raw W (c :: cs)).node.height - 1) < (c :: cs).length) := by
+  have hb : balanced bytesCodec raw W (c :: cs) = grow bytesCodec (leafKind raw .file) W cs.length 0
+      { node := .leaf (leafKind raw .file) c, size := bytesCodec.len c, below := [] } cs := rfl
+  have h := grow_depth bytesCodec (leafKind raw .file) W hW cs.length 0
+    { node := .leaf (leafKind raw .file) c, size := bytesCodec.len c, below := [] } cs (Nat.le_refl _)
+    (by simp [FNode.height]) (by simp [FNode.nleaves]) (by intro _; simp [FNode.nleaves])
+  simp only [FNode.nleaves] at h
+  obtain ⟨_, h2, h3⟩ := h
+  rw [hb]
+  simp only [List.length_cons]
+  refine ⟨by omega, fun hp => ?_⟩
+  have := h3 hp
+  omega
+
 example : (balanced bytesCodec false 2 (chunk 2 [1, 2, 3, 4, 5, 6, 7, 8, 9])).node.height = 3 ∧
     (balanced bytesCodec false 2 (chunk 2 [1, 2, 3, 4, 5, 6, 7, 8, 9])).node.leaves = [[1, 2], [3, 4], [5, 6], [7, 8], [9]] ∧
     (balanced bytesCodec false 2 (chunk 2 [1, 2, 3, 4, 5, 6, 7, 8, 9])).emitted.length = 11 ∧
